@@ -13,7 +13,7 @@ mod refint;
 use agent::{C6Agent, C6Lifecycle};
 use asys::agent::TruthLog;
 use asys::grid::{replay, run_grid, GridSpec};
-use asys::scripts::cmd;
+use asys::scripts::{cmd, link};
 use asys::world::{set_agent_factory, set_checker, AsWorld, Cfg};
 use prog::*;
 use serde_json::json;
@@ -30,8 +30,15 @@ fn factory(cfg: &Cfg, log: Arc<TruthLog>) -> swimos_api::agent::BoxAgent {
     Box::new(AgentModel::new(C6Agent::default, lifecycle.into_lifecycle()))
 }
 
-fn cfg_for(p: &Program, ncmds: usize) -> Cfg {
-    let script = (0..ncmds).map(|_| (0usize, cmd("c", "go"))).collect();
+/// Script variants: 1 = one command to lane c; 2 = two commands to lane c; 3 = a command to c,
+/// then the remote itself sets v and updates m (cascades whose root is a lane command), then c again.
+fn cfg_for(p: &Program, variant: usize) -> Cfg {
+    let go = || (0usize, cmd("c", "go"));
+    let script = match variant {
+        1 => vec![go()],
+        2 => vec![go(), go()],
+        _ => vec![go(), (0, cmd("v", "5")), (0, cmd("m", "@update(key:1) 7")), go()],
+    };
     let mut c = Cfg::basic(script, 1);
     c.extra = serde_json::to_string(p).unwrap();
     c
@@ -53,8 +60,8 @@ struct ChunkOut {
 }
 
 /// Run one program on the canonical schedule with `ncmds` commands.
-fn run_program(p: &Program, ncmds: usize, out: &mut ChunkOut, check_determinism: bool) {
-    let cfg = cfg_for(p, ncmds);
+fn run_program(p: &Program, variant: usize, out: &mut ChunkOut, check_determinism: bool) {
+    let cfg = cfg_for(p, variant);
     match run_one::<AsWorld>(&cfg, &[], false) {
         Ok(rec) => {
             out.executions += 1;
@@ -91,7 +98,9 @@ fn run_program(p: &Program, ncmds: usize, out: &mut ChunkOut, check_determinism:
 
 struct E4Spec {
     name: &'static str,
-    /// Largest total AST size run with the one-command script / the two-command script.
+    /// Smallest total AST size of this leg (smaller sizes are covered by another leg).
+    min_size: usize,
+    /// Largest total AST size run with the one-command script / the mixed script.
     max_size_1: usize,
     max_size_2: usize,
     wall_cap_s: f64,
@@ -108,7 +117,7 @@ fn run_e4(ctx: &Ctx, spec: E4Spec) {
     let mut capped = false;
     let mut samples = vec![];
     const CHUNK: u64 = 256;
-    for total in 0..=spec.max_size_1 {
+    for total in spec.min_size..=spec.max_size_1 {
         let bl = blocks(&mut trees, total, spec.with_start_stop);
         let mut work: Vec<(usize, u64, u64)> = vec![];
         for (bi, b) in bl.iter().enumerate() {
@@ -132,7 +141,7 @@ fn run_e4(ctx: &Ctx, spec: E4Spec) {
                     continue;
                 }
                 out.programs += 1;
-                let r = refint::expected(&p, 1, None);
+                let r = refint::expected(&p, &[refint::RootEv::Cmd], None);
                 if r.nested_bodies > 0 {
                     out.nontrivial += 1;
                 }
@@ -145,7 +154,7 @@ fn run_e4(ctx: &Ctx, spec: E4Spec) {
                 let det = ix == s && wi % 8 == 0;
                 run_program(&p, 1, &mut out, det);
                 if two {
-                    run_program(&p, 2, &mut out, false);
+                    run_program(&p, 3, &mut out, false);
                 }
                 if out.sample.is_none() && r.nested_bodies > 1 && wi % 97 == 0 {
                     out.sample = Some(json!({"program": p.to_string(), "reference_trace_one_command": r.trace}));
@@ -171,7 +180,7 @@ fn run_e4(ctx: &Ctx, spec: E4Spec) {
                     tot.suspending += o.suspending;
                     digests.extend(o.digests);
                     for (sig, expl, cfg) in o.violations {
-                        ctx.violation(spec.name, &sig, json!({"cfg": serde_json::to_value(&cfg).unwrap(), "choices": [], "explanation": expl, "what": sig}));
+                        ctx.violation(spec.name, &sig, json!({"cfg": serde_json::to_value(&cfg).unwrap(), "choices": [], "what": expl.lines().next().unwrap_or(""), "input": expl.lines().nth(1).unwrap_or(""), "explanation": expl}));
                     }
                     if !o.machinery.is_empty() {
                         eprintln!("machinery errors: {:?}", &o.machinery[..o.machinery.len().min(3)]);
@@ -185,7 +194,7 @@ fn run_e4(ctx: &Ctx, spec: E4Spec) {
                 }
             }
         }
-        per_size.push(json!({"total_size": total, "programs": size_programs, "executions": size_exec, "two_command_variant": two, "chunks_skipped_by_wall_cap": skipped}));
+        per_size.push(json!({"total_size": total, "programs": size_programs, "executions": size_exec, "mixed_script_variant": two, "chunks_skipped_by_wall_cap": skipped}));
         eprintln!("[C06] {} size {}: programs={} executions={} skipped_chunks={} t={:.1}s", spec.name, total, size_programs, size_exec, skipped, t0.elapsed().as_secs_f64());
         if skipped > 0 {
             capped = true;
@@ -204,10 +213,11 @@ fn run_e4(ctx: &Ctx, spec: E4Spec) {
         samples,
         exhaustive: !capped,
         bounds: json!({
-            "grammar": "H ::= Eff | SetV x | SetW x | Upd k x | Rem k | Clr | GetV | GetW | GetM | (GetV|GetW|GetEntry 1) >>= \\y.H (and_then) | H;H (followed_by) | Fail | Suspend H (not nested); x ::= literal unique per node | y; k in {1,2}; a slot's handler may only modify lanes later in c < v < w < m",
+            "grammar": "H ::= Eff | SetV x | SetW x | Upd k x | Rem k | Clr | GetV | GetW | GetM | (GetV|GetW|GetEntry 1) >>= \\y.H (and_then) | H;H (followed_by) | H>>H (and_then on the unit result) | Fail | Suspend H (not nested); x ::= literal unique per node | y; k in {1,2}; a slot's handler may only modify lanes later in c < v < w < m",
             "slots": SLOTS,
             "size": "number of AST nodes summed over all slots (Seq, Bind and Suspend count 1)",
-            "max_total_size_one_command": spec.max_size_1, "max_total_size_two_commands": spec.max_size_2,
+            "min_total_size": spec.min_size, "max_total_size_one_command": spec.max_size_1, "max_total_size_mixed_script": spec.max_size_2,
+            "scripts": "one-command: [c go]; mixed: [c go, v 5, m @update(key:1) 7, c go] (lane commands start cascades without the root handler)",
             "largest_total_size_completed": completed_size, "wall_cap_s": spec.wall_cap_s, "wall_cap_hit": capped,
             "per_size": per_size, "programs_with_fail": tot.failing, "programs_with_suspend": tot.suspending,
             "assignments_skipped_as_unreachable_duplicates": tot.unreachable,
@@ -217,19 +227,39 @@ fn run_e4(ctx: &Ctx, spec: E4Spec) {
     });
 }
 
-/// The n smallest reachable programs (enumeration order).
-fn smallest(n: usize) -> Vec<Program> {
+/// Programs for the schedule leg: the `n` smallest programs (command cascades only) followed by the
+/// first `deep` programs of size 4 in which at least two lane handlers with a body run nested.
+fn e1_programs(n: usize, deep: usize) -> Vec<Program> {
     let mut trees = Trees::default();
     let mut out = vec![];
-    for total in 0..8 {
-        for b in blocks(&mut trees, total, true) {
+    'small: for total in 0..4 {
+        for b in blocks(&mut trees, total, false) {
             for ix in 0..b.count {
                 let p = b.program(ix);
                 if p.reachable() {
                     out.push(p);
                     if out.len() >= n {
-                        return out;
+                        break 'small;
                     }
+                }
+            }
+        }
+    }
+    let mut d = 0;
+    'deep: for b in blocks(&mut trees, 4, false) {
+        // spread over the blocks: at most a few per size distribution
+        let mut per_block = 0;
+        for ix in 0..b.count {
+            let p = b.program(ix);
+            if p.reachable() && refint::expected(&p, &[refint::RootEv::Cmd], None).nested_bodies >= 2 {
+                out.push(p);
+                d += 1;
+                per_block += 1;
+                if d >= deep {
+                    break 'deep;
+                }
+                if per_block >= 2 {
+                    break;
                 }
             }
         }
@@ -262,21 +292,62 @@ fn main() {
         }
         std::process::exit(0);
     }
+    if std::env::var("C06_REPRO").is_ok() {
+        // stand-alone reproduction of the known finding: the command handler is `context.fail(..)`
+        let mut p = Program::empty();
+        p.slots[ROOT] = Some(H::Seq(Box::new(H::SetV(X::Lit(7))), Box::new(H::Seq(Box::new(H::Fail), Box::new(H::Eff(1))))));
+        let rec = run_one::<AsWorld>(&cfg_for(&p, 2), &[], true).unwrap();
+        println!("program: {}  script: two commands to lane c", p);
+        for l in &rec.outcome.log {
+            println!("{}", l);
+        }
+        println!("oracle: {:?}", rec.outcome.violations.iter().map(|v| &v.0).collect::<Vec<_>>());
+        std::process::exit(0);
+    }
     let quick = ctx.quick();
-    run_e4(&ctx, if quick { E4Spec { name: "e4-programs", max_size_1: 4, max_size_2: 3, wall_cap_s: 40.0, with_start_stop: true } } else { E4Spec { name: "e4-programs", max_size_1: 6, max_size_2: 5, wall_cap_s: 780.0, with_start_stop: true } });
-    // E1: the smallest programs under every schedule with a bounded number of deviations
-    let n = if quick { 300 } else { 2000 };
-    let mut cfgs = vec![];
-    for p in smallest(n) {
-        for ncmds in [1usize, 2] {
-            for budget in [64usize, 2] {
-                let mut c = cfg_for(&p, ncmds);
+    // E4 (a): all ten slots
+    run_e4(&ctx, if quick {
+        E4Spec { name: "e4-all-slots", min_size: 0, max_size_1: 3, max_size_2: 3, wall_cap_s: 25.0, with_start_stop: true }
+    } else {
+        E4Spec { name: "e4-all-slots", min_size: 0, max_size_1: 4, max_size_2: 4, wall_cap_s: 300.0, with_start_stop: true }
+    });
+    // E4 (b): cascades started by commands (on_start / on_stop left empty), one size deeper
+    run_e4(&ctx, if quick {
+        E4Spec { name: "e4-command-cascades", min_size: 0, max_size_1: 4, max_size_2: 4, wall_cap_s: 25.0, with_start_stop: false }
+    } else {
+        E4Spec { name: "e4-command-cascades", min_size: 0, max_size_1: 5, max_size_2: 5, wall_cap_s: 330.0, with_start_stop: false }
+    });
+    if !quick {
+        // the next size as far as the wall budget allows (reported as not exhaustive when capped)
+        run_e4(&ctx, E4Spec { name: "e4-command-cascades-size6", min_size: 6, max_size_1: 6, max_size_2: 0, wall_cap_s: 240.0, with_start_stop: false });
+    }
+    // E1: the smallest programs under every schedule with a bounded number of deviations; the
+    // remote is linked to v, w and m so that the runtime is writing events while handlers run
+    let progs = if quick { e1_programs(127, 20) } else { e1_programs(200, 60) };
+    let e1_cfgs = |progs: &[Program], variants: &[(bool, usize)]| {
+        let mut cfgs = vec![];
+        for p in progs {
+            for &(linked, budget) in variants {
+                let mut c = cfg_for(p, if linked { 3 } else { 2 });
+                if linked {
+                    let mut script = vec![(0usize, link("v")), (0, link("w")), (0, link("m"))];
+                    script.extend(c.script.clone());
+                    c.script = script;
+                }
                 c.budget = budget;
                 cfgs.push(c);
             }
         }
+        cfgs
+    };
+    let all = [(false, 64usize), (true, 64), (true, 2)];
+    if quick {
+        run_grid(&ctx, GridSpec { name: "e1-schedules-d1".into(), cfgs: e1_cfgs(&progs, &all), bound: 1, max_exec_per_cfg: 50_000, wall_cap_s: 12.0 });
+        let core: Vec<Program> = progs.iter().take(30).chain(progs.iter().skip(127)).cloned().collect();
+        run_grid(&ctx, GridSpec { name: "e1-schedules-d2".into(), cfgs: e1_cfgs(&core, &[(true, 64)]), bound: 2, max_exec_per_cfg: 50_000, wall_cap_s: 10.0 });
+    } else {
+        run_grid(&ctx, GridSpec { name: "e1-schedules-d2".into(), cfgs: e1_cfgs(&progs, &all), bound: 2, max_exec_per_cfg: 50_000, wall_cap_s: 200.0 });
     }
-    run_grid(&ctx, GridSpec { name: "e1-schedules".into(), cfgs, bound: 2, max_exec_per_cfg: 50_000, wall_cap_s: if quick { 12.0 } else { 240.0 } });
     ctx.assume("tokio select! start index and HashMap iteration order are fixed per VERIF_SEED (deterministic interposer), not enumerated");
     ctx.assume("literals are unique per AST node (equal values arise only by repeating the command or through `y`)");
     ctx.finish(
